@@ -557,16 +557,26 @@ mod query {
         rid: &RepoId,
         filter: &State,
     ) -> Result<IssuesIter<'a>, Error> {
+        // A closed issue only matches when it was closed for the same reason.
+        let reason = match filter {
+            State::Open => sql::Value::Null,
+            State::Closed { reason } => match serde_json::to_value(reason)? {
+                serde_json::Value::String(reason) => sql::Value::String(reason),
+                _ => sql::Value::Null,
+            },
+        };
         let mut stmt = db.prepare(
             "SELECT id, issue
              FROM issues
              WHERE repo = ?1
              AND issue->>'$.state.status' = ?2
+             AND (?3 IS NULL OR issue->>'$.state.reason' = ?3)
              ORDER BY id
             ",
         )?;
         stmt.bind((1, rid))?;
         stmt.bind((2, sql::Value::String(filter.to_string())))?;
+        stmt.bind((3, reason))?;
         Ok(IssuesIter {
             inner: stmt.into_iter(),
         })
